@@ -40,7 +40,9 @@ def _buf(b):
 class World:
     current = None  # the active simulation (one at a time per process)
 
-    def __init__(self, nranks, decisions=None, policy='random', seed=0):
+    def __init__(self, nranks, decisions=None, policy='random', seed=0, max_ops=10**9):
+        self.max_ops = max_ops
+        self.budget_exhausted = False
         self.n = nranks
         self.cv = threading.Condition()
         self.turn = None
@@ -123,6 +125,12 @@ class World:
         me = self.rank()
         with self.cv:
             self.stats['yields'] += 1
+            if self.stats['yields'] > self.max_ops and self.abort is None:
+                # count-based budget (no clock): the caller decides what a run that needs this many MPI calls means
+                self.abort = SimError(f'operation budget exhausted: more than {self.max_ops} MPI calls')
+                self.budget_exhausted = True
+                self.turn = None
+                self.cv.notify_all()
             if pred is not None:
                 pred.what = what
                 self.blocked[me] = pred
